@@ -105,38 +105,6 @@ theorem T2_have_broadcast_only_for_owned (s s' : MState) (ev : Ev) (r : Reply) (
 def R11 (st : M11) (s : HState) : Prop :=
   st.alive = s.alive ∧ (s.alive = true → st.choked = s.choked ∧ st.buffered = s.msgBuff)
 
-theorem hvsO_flush (l : List Nat) : hvsO (l.map fun i => HOut.write (.haveP i)) = l := by
-  induction l with
-  | nil => rfl
-  | cons x xs ih => simp only [List.map_cons, hvsO, List.filterMap_cons] at ih ⊢; rw [ih]
-
-theorem bfsO_flush (l : List Nat) : bfsO (l.map fun i => HOut.write (.haveP i)) = [] := by
-  induction l with
-  | nil => rfl
-  | cons x xs ih => simp only [List.map_cons, bfsO, List.filterMap_cons] at ih ⊢; exact ih
-
-theorem wrO_flush (l : List Nat) : wrO (l.map fun i => HOut.write (.haveP i)) = l.map .haveP := by
-  induction l with
-  | nil => rfl
-  | cons x xs ih => simp only [List.map_cons, wrO, List.filterMap_cons] at ih ⊢; rw [ih]
-
-/-- `handle_unchoke`, precisely: the flush, the command, and then nothing that announces. -/
-theorem onUnchoke_adv (s : HState) (rep : Rep) (s' : HState) (o : List HOut) (c : Cont)
-    (h : onUnchoke s rep = some (s', o, c)) :
-    s'.msgBuff = [] ∧ s'.choked = false ∧ s'.alive = s.alive ∧
-    ∃ rest, o = s.msgBuff.map (fun i => HOut.write (.haveP i)) ++ [.cmd .recvUnchoke] ++ rest ∧ Quiet rest := by
-  unfold onUnchoke at h
-  simp only at h
-  split at h
-  · rename_i rd wi
-    cases h
-    obtain ⟨hk, hq⟩ := newPieceRequest_adv { s with choked := false, msgBuff := [] } wi rd
-    obtain ⟨_, ha, _⟩ := newPieceRequest_core { s with choked := false, msgBuff := [] } wi rd
-    exact ⟨hk.2, hk.1, ha, _, rfl, hq⟩
-  · cases h; exact ⟨rfl, rfl, rfl, _, rfl, ⟨rfl, rfl⟩⟩
-  · cases h; exact ⟨rfl, rfl, rfl, [], by simp, ⟨rfl, rfl⟩⟩
-  · cases h
-
 theorem quiet_cancels (i : Nat) (l : List (Nat × Nat)) : Quiet (l.map fun bl => HOut.write (.cancel i bl.1 bl.2)) := by
   induction l with
   | nil => exact ⟨rfl, rfl⟩
